@@ -20,6 +20,11 @@ PROP = dict(
                     "first/last byte changed, binary, unset) searched with mpt_node_locate from every start node, pos -3..3, six name "
                     "variants, name handed over NUL-terminated / as front part of a longer string / in an exact-size block / with "
                     "explicit text charset / as binary; result = n-th string-equal node of the model.  "
+                    "Clones: 1440 enumerated cases of mpt_node_clone / mpt_list_clone / mpt_tree_clone (20 name lengths around the node inline "
+                    "capacities 20/84/212 and long x 4 node sizes x 6 value variants) on nodes carrying a harness metatype whose clone() "
+                    "accepts or refuses: accepted copies have equal names (every node of the list/tree), refused ones return NULL and "
+                    "leave neither value clones nor name storage allocated (allocator bytes-in-use before/after the call, in-case "
+                    "LeakSanitizer pass); source objects compared with snapshots.  "
                     "Exploration, not proof: lengths between the boundaries are sampled."),
         level_note=("trusts the byte-array shadow in harness/c16_ident.c / c16_cxx.cpp, gcc ASan/UBSan red zones and poison state, "
                     "LeakSanitizer (conservative scan: secondary to the explicit release witness)"),
@@ -33,7 +38,11 @@ PROP = dict(
                            "monitor:source-unchanged": 20000, "outcome:refused-too-long": 100,
                            "monitor:locate-forward-hit": 100000, "monitor:locate-backward-hit": 50000, "monitor:locate-last-hit": 20000,
                            "monitor:locate-back-hit-unterminated-name": 30000, "monitor:locate-backward-hit-beyond-neighbour": 20000,
-                           "monitor:locate-miss": 100000}),
+                           "monitor:locate-miss": 100000,
+                           "mpt_node_clone": 400, "mpt_list_clone": 400, "mpt_tree_clone": 400, "clone:accepted": 400, "clone:refused": 700,
+                           "clone:refused-node-has-out-of-line-name": 300, "clone:refused-other-node-has-out-of-line-name": 20,
+                           "clone:accepted-with-out-of-line-name": 200, "monitor:clone-name-compared": 1000,
+                           "monitor:clone-leak-check": 1400}),
               dict(name="c16_cxx", memcheck=500, src=["c16_cxx.cpp"], libs=["mpt++", "mptio", "mptplot", "mptcore"], batch=256, lsan=True,
                    floors={"identifier::set_name": 5000, "identifier::operator=": 2000, "identifier::identifier(copy)": 500,
                            "identifier::equal": 10000, "item::operator=": 300, "transition:long>short": 500,
